@@ -171,6 +171,30 @@ theorem chunksTilingFrom_chain : ∀ (l : List Nat) (off : Int),
       push_cast; ring
     rwa [e] at this
 
+theorem regularTiling_chain_aux (N n : Nat) (hn : 0 < n) : ∀ (cnt k : Nat), k + cnt = (N + n - 1) / n →
+    Chain ((min (k * n) N : Nat) : Int)
+      ((List.range' k cnt).map fun i => (((i * n : Nat) : Int), ((min ((i + 1) * n) N : Nat) : Int))) N
+  | 0, k, hk => by
+    simp only [List.range'_zero, List.map_nil, Chain]
+    have h1 := Nat.div_add_mod (N + n - 1) n
+    have h2 := Nat.mod_lt (N + n - 1) hn
+    have h3 : k * n = n * ((N + n - 1) / n) := by rw [← hk, Nat.add_zero, Nat.mul_comm]
+    have : N ≤ k * n := by omega
+    have : min (k * n) N = N := by omega
+    rw [this]
+  | cnt + 1, k, hk => by
+    have h1 := Nat.div_add_mod (N + n - 1) n
+    have hle : (k + 1) * n ≤ ((N + n - 1) / n) * n := Nat.mul_le_mul_right n (by omega)
+    have h4 : (k + 1) * n = k * n + n := by rw [Nat.add_mul, Nat.one_mul]
+    have h5 : ((N + n - 1) / n) * n = n * ((N + n - 1) / n) := Nat.mul_comm _ _
+    have hkN : k * n ≤ N := by omega
+    have hmin : min (k * n) N = k * n := by omega
+    simp only [List.range'_succ, List.map_cons, Chain]
+    refine ⟨by rw [hmin], ?_, ?_⟩
+    · have : k * n ≤ min ((k + 1) * n) N := by omega
+      exact_mod_cast this
+    · exact regularTiling_chain_aux N n hn cnt (k + 1) (by omega)
+
 /-! ### `minMax`, `clipSpans`, `mapOpt` -/
 
 theorem minMax_spec : ∀ {l : List Nat} {lo hi : Nat}, minMax l = some (lo, hi) →
